@@ -155,6 +155,112 @@ def run_case(args):
     return rc, out, se[-300:].decode(errors="replace")
 
 
+def hdr10plus_cases(ctx, rng, work):
+    """`generate --hdr10plus-json`: synthesised HDR10+ JSON (1..k scenes, every peak source) plus a JSON config whose
+    shots carry override blocks: frame count, scene cuts at the scene starts, one L1 per scene computed from the
+    scene's first frame (exact ST 2084 codes, clamped), override blocks of shot k on every frame of scene k"""
+    from . import c19
+    ncase = 24 if ctx.tier == "quick" else 400
+    for i in range(ncase):
+        nsc = 1 + rng.below(5)
+        lens = [1 + rng.below(6) for _ in range(nsc)]
+        first0 = rng.choice([0, 0, 5])
+        frames = []
+        firsts = []
+        idx = first0
+        for sc, ln in enumerate(lens):
+            firsts.append(idx)
+            for f in range(ln):
+                maxscl = [rng.below(100000) for _ in range(3)]
+                dist = sorted(rng.below(100000) for _ in range(9))
+                frames.append({"LuminanceParameters": {"AverageRGB": rng.below(20000),
+                                                       "LuminanceDistributions": {"DistributionIndex": [1, 5, 10, 25, 50, 75, 90, 95, 99],
+                                                                                  "DistributionValues": dist},
+                                                       "MaxScl": maxscl},
+                               "NumberOfWindows": 1, "TargetedSystemDisplayMaximumLuminance": 0,
+                               "SceneFrameIndex": f, "SceneId": sc, "SequenceFrameIndex": idx})
+                idx += 1
+        hj = {"JSONInfo": {"HDR10plusProfile": "A", "Version": "1.0"}, "SceneInfo": frames,
+              "SceneInfoSummary": {"SceneFirstFrameIndex": firsts, "SceneFrameNumbers": lens},
+              "ToolInfo": {"Tool": "verif", "Version": "0"}}
+        d = os.path.join(work, "h%d" % i)
+        os.makedirs(d, exist_ok=True)
+        hp = os.path.join(d, "h.json")
+        json.dump(hj, open(hp, "w"))
+        cm40 = rng.chance(1, 2)
+        cfg = {"cm_version": "V40" if cm40 else "V29", "length": 0,
+               "level6": {"max_display_mastering_luminance": 1000, "min_display_mastering_luminance": 1,
+                          "max_content_light_level": 0, "max_frame_average_light_level": 0}, "shots": []}
+        over = []
+        for sc in range(rng.below(nsc + 2)):
+            b, _, js = block_pair(rng, rng.choice([2, 2, 1]))
+            cfg["shots"].append({"start": 0, "duration": 0, "metadata_blocks": [js]})
+            over.append(js)
+        cp = os.path.join(d, "cfg.json")
+        json.dump(cfg, open(cp, "w"))
+        src = rng.choice(["histogram", "histogram99", "max-scl", "max-scl-luminance"])
+        outp = os.path.join(d, "out.bin")
+        rc, so, se = clirun.run(["generate", "-j", cp, "--hdr10plus-json", hp, "--hdr10plus-peak-source", src, "-o", outp])
+        ctx.evaluations += 1
+        ctx.count("hdr10plus peak-source=%s" % src)
+        case = {"op": "generate --hdr10plus-json", "input": json.dumps({"hdr10plus": hj["SceneInfoSummary"], "config": cfg, "peak_source": src})[:3000]}
+        if rc not in (0, 1):
+            ctx.oracle_fail(dict(case, observed="exit %s %s" % (rc, se[-200:]), expected="exit 0 or an error", shape="crash"))
+            continue
+        if rc != 0:
+            ctx.count("hdr10plus result=err")
+            continue
+        out = clirun.read_rpu_file(outp)
+        ctx.nontriv("hdr10plus%d" % i)
+        total = sum(lens)
+        if len(out) != total:
+            ctx.oracle_fail(dict(case, observed="%d frames" % len(out), expected="%d frames" % total, shape="frame-count"))
+            continue
+        pj, _, _ = common.run_lines(common.LIBCASE, ["nalu.json 7c01" + o.hex() for o in out])
+        starts = set(x - first0 for x in firsts)
+        k = 0
+        for sc, ln in enumerate(lens):
+            fm = frames[k]["LuminanceParameters"]
+            avg_nits = round_half_even_free(fm["AverageRGB"] / 10.0)
+            lo = 1229 if cm40 else 819
+            for f in range(ln):
+                jj = json.loads(pj[k + f][3:]) if pj[k + f].startswith("ok {") else None
+                if jj is None:
+                    ctx.oracle_fail(dict(case, observed="frame %d does not parse" % (k + f), expected="parses", shape="unparsable"))
+                    break
+                flag = jj["vdr_dm_data"]["scene_refresh_flag"]
+                if flag != (1 if (k + f) in starts else 0):
+                    ctx.oracle_fail(dict(case, frame=k + f, observed="scene flag %d" % flag, expected="1 exactly on the first frame of each HDR10+ scene", shape="profile-or-scene-cut"))
+                    break
+                have = frame_blocks(jj)
+                l1 = (have.get(("Level1", None)) or [None])[0]
+                if src == "max-scl" and l1 is not None:
+                    mx_nits = round_half_even_free(max(fm["MaxScl"]) / 10.0)
+                    want_max = min(max(c19.code_dec(c19.D(mx_nits))[0], 2081), 4095)
+                    want_avg = min(max(c19.code_dec(c19.D(avg_nits))[0], lo), want_max - 1)
+                    ov_l1 = [o["Level1"] for o in over[sc:sc + 1] if "Level1" in o]
+                    if not ov_l1 and (l1["max_pq"], l1["avg_pq"], l1["min_pq"]) != (want_max, want_avg, 0):
+                        ctx.oracle_fail(dict(case, frame=k + f, observed=json.dumps(l1), expected="L1 max_pq %d avg_pq %d min_pq 0 (ST 2084 codes of the scene's first frame, clamped)" % (want_max, want_avg), shape="hdr10plus-l1"))
+                        break
+                if sc < len(over):
+                    name = list(over[sc])[0]
+                    if name != "Level1":
+                        key = over[sc][name].get(KEYED[name]) if name in KEYED else None
+                        got = have.get((name, key), [])
+                        if not any(all(over[sc][name].get(kk) == vv for kk, vv in g.items()) for g in got):
+                            ctx.oracle_fail(dict(case, frame=k + f, observed="%s in frame: %s" % (name, json.dumps(got)[:200]),
+                                                 expected="the override block of config shot %d: %s" % (sc, json.dumps(over[sc][name])[:200]), shape="precedence"))
+                            break
+            k += ln
+
+
+def round_half_even_free(x):
+    """f64::round (half away from zero) for x >= 0"""
+    import math
+    r = math.floor(x)
+    return r + 1 if x - r >= 0.5 else r
+
+
 def run(ctx):
     ctx.rule = ("generator configs over cm_version x profile x long_play_mode, 0..5 shots of any durations (0 included) in any "
                 "order, frame edits at offsets 0 / last / beyond the shot / duplicated, blocks of every level and length variant "
@@ -163,7 +269,12 @@ def run(ctx):
                 "CLI's RPU list and exit status are compared with the Lean GenModel, and checked directly: no crash, exactly "
                 "sum-of-durations frames, every RPU parses with the requested profile, scene-cut flag exactly at shot starts "
                 "(everywhere in long-play mode); non-trivial = generation succeeded with >= 1 shot block or edit; distinct by config hash")
-    ctx.assumptions = ["HDR10+ and madVR sources are third-party parsers feeding the same shot list; only their derived shot lists enter the model (exercised through the repository's sample files in C17)"]
+    ctx.rule += ("; plus `--hdr10plus-json` runs on synthesised HDR10+ JSON (1..5 scenes, every peak source) with override shots: "
+                 "frame count, scene cuts at the scene starts, per-scene L1 from the first frame (exact ST 2084 codes, clamped; "
+                 "max-scl source), override blocks on every frame of their scene — direct oracles only")
+    ctx.assumptions = ["the HDR10+ JSON reader and the madVR measurement reader are third-party parsers feeding the same shot list; the HDR10+ "
+                       "path is driven with synthesised JSON (direct oracles), the madVR path only through C17's sample "
+                       "(no measurement-file generator: mutant M106 in mutants/b1/triage.md lives there)"]
     ctx.build_and_audit(need_cli=True)
     rng = ctx.rng.fork("c10")
     n = 500 if ctx.tier == "quick" else 8000
@@ -179,6 +290,7 @@ def run(ctx):
     try:
         with concurrent.futures.ThreadPoolExecutor(max_workers=14) as ex:
             res = list(ex.map(run_case, cases))
+        hdr10plus_cases(ctx, rng.fork("hdr10plus"), work)
     finally:
         clirun.cleanup(work)
     mo, _, _ = common.run_lines_sharded(common.MODEL_EXE, lines)
